@@ -100,6 +100,8 @@ type K struct {
 	gmu       sync.Mutex
 	gates     []*GateRec
 	HoldGates bool
+	// BurstGates additionally offers releasing all parked gates in one step.
+	BurstGates bool
 }
 
 // NewK builds a kernel handle. Must be called inside the bubble.
@@ -497,6 +499,9 @@ func (k *K) Parked() []*GateRec {
 			out = append(out, g)
 		}
 	}
+	// canonical order: by name (arrival order may depend on things the simulator does not own,
+	// such as map iteration order inside the system)
+	sort.SliceStable(out, func(i, j int) bool { return out[i].Name < out[j].Name })
 	return out
 }
 
@@ -518,9 +523,20 @@ func (k *K) GateSource(add func(Action)) {
 	if k.HoldGates {
 		return
 	}
-	for _, g := range k.Parked() {
+	parked := k.Parked()
+	for _, g := range parked {
 		g := g
 		add(Action{Key: "release " + g.Name, W: 3, Class: Gate, Do: func() { k.Release(g) }})
+	}
+	if len(parked) >= 2 && k.BurstGates {
+		// One stimulus that wakes several goroutines: they then run with no controller-imposed
+		// order between them (who blocks where decides the interleaving).
+		add(Action{Key: fmt.Sprintf("burst release %d gates", len(parked)), W: 3, Class: Gate, Do: func() {
+			k.Probe("burst_release")
+			for _, g := range parked {
+				k.Release(g)
+			}
+		}})
 	}
 }
 
